@@ -79,8 +79,11 @@ Compound(t) == t.k \notin {"id", "num", "str", "bool", "null", "inref"}
 W(parent, child, pos, full) ==
   IF (IF full THEN Compound(child) /\ child.k # "spread" ELSE NeedsParensR(parent, child, pos))
   THEN "(" \o Text(child, full) \o ")" ELSE Text(child, full)
+\* a key is written bare when it is a plain name and quoted when it is a reserved word or not a name at all
+QuotedKeys == {"if", "then", "else", "true", "false", "null", "and", "or", "not", "do", "return", "output", "a b", "1st", ""}
+KeyText(k) == IF k \in QuotedKeys THEN "\"" \o k \o "\"" ELSE k
 EntryText(parent, e, full) ==
-  CASE e.ek = "static" -> e.key \o ": " \o W(parent, e.v, "item", full)
+  CASE e.ek = "static" -> KeyText(e.key) \o ": " \o W(parent, e.v, "item", full)
     [] e.ek = "dyn"    -> "[" \o W(parent, e.ke, "item", full) \o "]: " \o W(parent, e.v, "item", full)
     [] e.ek = "short"  -> e.n
     [] e.ek = "spread" -> "..." \o W(Spread(e.e), e.e, "e", full)
@@ -130,6 +133,7 @@ Shapes(X) ==
   \cup {RecE(<<EStatic("k", X)>>), RecE(<<EDyn(X, a)>>), RecE(<<EStatic("k", a), ESpread(X)>>)}
 Leaves == {a, Num(1), StrLit("s", FALSE), StrLit("two\nlines", FALSE), StrLit("cr\r\nlf  x", FALSE), StrLit("say \"hi\"", TRUE), StrLit("it's", FALSE), StrLit("a\\b", FALSE),
            BoolL(TRUE), NullL, InRef("k"), ListE(<<>>), RecE(<<>>), RecE(<<EShort("a")>>)}
+           \cup {RecE(<<EStatic(k, a)>>) : k \in {"via", "into", "where", "inputs", "constants", "sum", "inf", "x1", "_"} \cup QuotedKeys}
 T1 == UNION {Shapes(lf) : lf \in {a}}
 T1all == UNION {Shapes(lf) : lf \in Leaves}
 T2 == UNION {Shapes(t) : t \in T1}
